@@ -507,6 +507,7 @@ Section WfCF.
   Variable rm : remaps.
   Variable NN : list vname.
   Variable brk : bool.      (* Loop nodes with a trip count AND a condition (`for` + `if not c: break`) are in the class *)
+  Variable use_ops : option bool.   (* use_operators: a node of the operator table is printed as `a <sym> b` *)
 
   Notation tr := (tr rename rm).
   Notation tv := (tv rename rm).
@@ -515,10 +516,36 @@ Section WfCF.
   Definition freshb (D : list vname) (x : vname) : bool := nonempty x && memb x NN && negb (memb x D).
   Definition phb (outs : list vname) : bool := forallb (fun p => negb (memb p (map tr NN))) (ph_names 0 outs).
 
+  (* use_operators: the exporter looks at the operator NAME only (not at the domain, the attributes or the number of
+     operands) and prints `out0 = in0 <sym> in1`.  That line denotes the node when the node is the default-domain operator
+     with exactly two operands and one output and no attribute, and the converter's table reads the symbol back as this
+     operator (the dead entry "Lesser" does not: `<` is Less). *)
+  Definition op_line_okb (n : node) : bool :=
+    match use_ops with
+    | None => true
+    | Some _ =>
+      match lookup_assoc (n_op n) use_operators_table with
+      | None => true
+      | Some sym =>
+        String.eqb (n_dom n) "" && negb (String.eqb (n_op n) "Identity") && is_nil (n_attrs n) &&
+        match n_ins n, n_outs n with
+        | [Some _; Some _], [o] => nonempty o
+        | _, _ => false
+        end &&
+        match pyop sym with
+        | Some (_, cls) => match lookup_assoc cls primop_map with
+                           | Some o' => String.eqb o' (n_op n) && negb (String.eqb cls "Mod") && negb (String.eqb o' "NotEqual")
+                           | None => false
+                           end
+        | None => false
+        end
+      end
+    end.
+
   Definition wf_plain (D : list vname) (n : node) : option (list vname) :=
     let named := filter nonempty (n_outs n) in
     if forallb (fun x => memb x D) (present (n_ins n))
-       && forallb (freshb D) named && nodupb named && phb (n_outs n) && call_okb kw (n_op n) (n_ins n)
+       && forallb (freshb D) named && nodupb named && phb (n_outs n) && call_okb kw (n_op n) (n_ins n) && op_line_okb n
     then Some (named ++ D)%list else None.
 
   Section Node.
@@ -684,7 +711,7 @@ Section NestedOk.
     filter (fun x => negb (memb x (map fst rm))) (gnames g).
 
   Variable brk : bool.
-  Definition nested_okb (ivals : list (vname * attrv)) (g : graph) : bool :=
+  Definition nested_ops_okb (use_ops : option bool) (ivals : list (vname * attrv)) (g : graph) : bool :=
     let rm := fst (scan rename infun None false ivals g) in
     let NN := nested_names rm g in
     let t := tr rename rm in
@@ -695,8 +722,10 @@ Section NestedOk.
     forallb (fun x => String.eqb (prename x) (t x)) (g_ins g) &&
     forallb (fun x => String.eqb (t (t x)) (t x)) (g_inits g) &&
     (is_nil ivals || call_okb kw "Constant" []) &&
-    match wf_cf kw rename rm NN brk (depth_graph g) D0 (g_nodes g) with
+    match wf_cf kw rename rm NN brk use_ops (depth_graph g) D0 (g_nodes g) with
     | Some D => forallb (fun o => memb o D) (g_outs g)
     | None => false
     end.
+  (* use_operators off *)
+  Definition nested_okb : list (vname * attrv) -> graph -> bool := nested_ops_okb None.
 End NestedOk.
